@@ -164,6 +164,7 @@ type speccScn struct {
 	nhosts int
 	ctx    bool     // the statement carries a cancelable context
 	pre    bool     // … which is cancelled BEFORE the statement is executed
+	dl     bool     // … which ends by its deadline (context.DeadlineExceeded) instead of being cancelled
 	plan   []string // steps tried first (skipped when not enabled): L<i> C<i>:<fate> D<i> X
 	okPct  int      // how often a held request is answered with success
 	xPct   int      // how often (per step) the caller's context is cancelled
@@ -232,7 +233,10 @@ func runSpecCancel(c speccScn, r *vh.Rng) string {
 	both := &teeObs{a: rec, b: obs}
 	var cancel context.CancelFunc = func() {}
 	ctx := context.Background()
-	if c.ctx {
+	if c.ctx && c.dl {
+		d := newDeadlineCtx()
+		ctx, cancel = d, d.expire
+	} else if c.ctx {
 		ctx, cancel = context.WithCancel(ctx)
 	}
 	defer cancel()
@@ -258,6 +262,9 @@ func runSpecCancel(c speccScn, r *vh.Rng) string {
 	}
 	if c.ctx && c.pre {
 		ctxTok = "p"
+	}
+	if c.ctx && c.dl {
+		ctxTok += "d"
 	}
 	head := fmt.Sprintf("specc %s %s %s %d %d %s %d", c.kind, c.idem, c.policy, c.a, c.nhosts, ctxTok, c.cons)
 	var exs []*cExec
@@ -725,7 +732,7 @@ func speccGrid() []speccScn {
 	}
 	for ki, kind := range []string{"q", "bl", "bu", "bc"} {
 		for pi, p := range plans {
-			c := speccScn{kind: kind, idem: "1", a: 2, nhosts: 5 + (ki+pi)%2, ctx: true, plan: p, okPct: 20, xPct: 0, cons: consCodes[(ki+pi)%len(consCodes)]}
+			c := speccScn{kind: kind, idem: "1", a: 2, nhosts: 5 + (ki+pi)%2, ctx: true, dl: (ki+pi)%3 == 1, plan: p, okPct: 20, xPct: 0, cons: consCodes[(ki+pi)%len(consCodes)]}
 			if kind != "q" {
 				c.idem = strings.Repeat("1", 1+(ki+pi)%4)
 			}
@@ -741,7 +748,7 @@ func speccGrid() []speccScn {
 
 func genSpecc(r *vh.Rng) speccScn {
 	c := speccScn{kind: []string{"q", "bl", "bu", "bc"}[r.Intn(4)], idem: "1", a: 1 + r.Intn(3), nhosts: 1 + r.Intn(6),
-		cons: consCodes[r.Intn(len(consCodes))], ctx: r.Intn(3) > 0, pre: r.Intn(8) == 0, okPct: []int{0, 15, 30, 60}[r.Intn(4)], xPct: []int{0, 4, 10}[r.Intn(3)]}
+		cons: consCodes[r.Intn(len(consCodes))], ctx: r.Intn(3) > 0, pre: r.Intn(8) == 0, dl: r.Intn(3) == 0, okPct: []int{0, 15, 30, 60}[r.Intn(4)], xPct: []int{0, 4, 10}[r.Intn(3)]}
 	if c.kind != "q" {
 		c.idem = strings.Repeat("1", 1+r.Intn(5))
 	}
